@@ -3,7 +3,7 @@ from props import S
 CFG = {
     "properties_file": "Properties/C23.v",
     "corr_files": ["Corr/C23.v"],
-    "streams": [S("C23", "drive_paging", 40, 1500)],
+    "streams": [S("C23", "drive_paging", 30, 1500)],
     "rule": "a case = one TransferSize in force: the listed values {1, 512, 4096, 65536, 2^20, 2^20+1, 2^31, cap-1, cap, cap+1 "
             "(cap = 1 044 480), 2^32, 2^32+5, 2^32+2^20, 3*2^32, 2^62+7} first (corpus, all with a TCP part), then seeded: listed "
             "25%, small 1..9000 20%, around 64 Ki 15%, around the cap 15%, around 1 Mi 10%, medium 7%, above 2^32 8%; set at "
@@ -15,7 +15,11 @@ CFG = {
             "over a real loopback TCP connection with record marking to a server started with NewServer+Listen or (40%) "
             "AbsfsNFS.Export: counts {1, max-1, max, max+1, ts, ts+1, the largest count whose call fits a 1 MiB record, that "
             "+1 and +4 (record 1 048 580: dropped with the connection), random}, a NULL call after every probe to see whether "
-            "the connection survived. Payload bytes are not part of the Coq term (sizes, codes and counts are). Non-trivial = "
+            "the connection survived; then 2..3 PHASES: TransferSize is changed again at runtime (UpdateTuningOptions, 25% "
+            "UpdateExportOptions; values from {512, 2048, 8192, 65536, 100000, 300000, cap, 2^20, 4 MiB, 2^32, random}, raises and "
+            "falls) while one connection stays open, and after each change FSINFO + WRITE(wtmax) + WRITE(wtpref) + READ(rtmax) "
+            "are made on that old connection and FSINFO + WRITE(wtmax) + READ(rtmax) on a fresh one (two corpus cases keep "
+            "one connection across 5..7 changes). Payload bytes are not part of the Coq term (sizes, codes and counts are). Non-trivial = "
             "a WRITE of exactly wtmax bytes accepted and at least one refused WRITE, clamped READ or dropped record; distinct = "
             "distinct Coq term",
     "assumptions": [
